@@ -38,6 +38,8 @@ Definition keyformat_dec : forall a b : keyformat, {a = b} + {a <> b}.
 Proof. decide equality; apply str_dec. Defined.
 Definition entitykey_dec : forall a b : entitykey, {a = b} + {a <> b}.
 Proof. decide equality; apply N.eq_dec. Defined.
+Definition entityk_dec : forall a b : entityk, {a = b} + {a <> b}.
+Proof. decide equality; [apply optstr_dec|apply entitykey_dec]. Defined.
 Definition opt_dec {A} (d : forall a b : A, {a = b} + {a <> b}) : forall a b : option A, {a = b} + {a <> b}.
 Proof. decide equality. Defined.
 Definition pair_dec {A B} (da : forall a b : A, {a = b} + {a <> b}) (db : forall a b : B, {a = b} + {a <> b}) :
@@ -49,7 +51,7 @@ Proof.
   decide equality;
     try apply optN_dec; try apply N.eq_dec; try apply optstr_dec;
     try (apply opt_dec; first [apply optb_dec | apply zbounds_dec | apply strlen_dec | apply keyformat_dec
-                              | apply entitykey_dec | apply tsbounds_dec | apply strbounds_dec
+                              | apply entityk_dec | apply tsbounds_dec | apply strbounds_dec
                               | apply (pair_dec optN_dec optN_dec)]).
 Defined.
 
@@ -84,8 +86,8 @@ Definition root_eqb (a b : root) : bool := if root_dec a b then true else false.
 
 (* ---- observations *)
 Inductive c18obs :=
-| OSet (file : str) (class : N) (set : list (ref * option root))  (* SchemaSetFromFiles including one file *)
-| OMsg (full : str) (class : N) (r : option root)                 (* SchemaCache.Schema on a fresh cache *)
+| OSet (file : str) (class : N) (consistent : bool) (set : list (ref * option root))  (* SchemaSetFromFiles including one file *)
+| OMsg (full : str) (class : N) (consistent : bool) (r : option root)                 (* SchemaCache.Schema on a fresh cache *)
 | OClient (full : str) (class : N) (dup : bool) (unresolved : bool) (* ClientProperties of the reflected object *)
 | OCodec (full : str) (class_empty class_fields : N)               (* codec: encode empty; worst over single-field messages *)
 | OHist (l : list (str * N)).                                      (* one shared cache, classes in call order *)
@@ -101,24 +103,26 @@ Definition entry_matches (st : sset) (ke : ref * option root) : bool :=
 
 Definition check_obs (D : desc) (o : c18obs) : bool :=
   match o with
-  | OSet file class set =>
+  | OSet file class consistent set =>
       match find_file D file with
       | None => false
       | Some f =>
           match reflect D [f] with
           | Ok st => N.eqb class 0 && Nat.eqb (length st) (length set) && forallb (entry_matches st) set
-                     && set_consistent D st
+                     && Bool.eqb consistent (set_consistent D st)
           | other => N.eqb class (cls other)
           end
       end
-  | OMsg full class r =>
+  | OMsg full class consistent r =>
       match find_msg D full with
       | None => false
       | Some m =>
-          match snd (cache_schema D (size D) [] m), r with
-          | Ok r1, Some r2 => N.eqb class 0 && root_eqb r1 r2
-          | Ok _, None => false
-          | other, _ => N.eqb class (cls other)
+          match cache_schema D (size D) [] m, r with
+          | (st, Ok r1), Some r2 =>
+              N.eqb class 0 && root_eqb r1 r2
+              && Bool.eqb consistent (entry_consistent D st (msg_key m) (Linked r1))
+          | (_, Ok _), None => false
+          | (_, other), _ => N.eqb class (cls other)
           end
       end
   | OClient full class dup unresolved =>
@@ -159,6 +163,58 @@ Definition check_obs (D : desc) (o : c18obs) : bool :=
 
 Definition c18_check (c : c18case) : bool :=
   match c with C18Case D obs => forallb (check_obs D) obs end.
+
+(* what the model computes for an observation (for diagnosis) *)
+Definition obs_model (D : desc) (o : c18obs) : list N :=
+  match o with
+  | OSet file _ _ _ =>
+      match find_file D file with
+      | None => [99%N]
+      | Some f => match reflect D [f] with
+                  | Ok st => [0%N; N.of_nat (length st); if set_consistent D st then 1%N else 0%N]
+                  | other => [cls other]
+                  end
+      end
+  | OMsg full _ _ _ =>
+      match find_msg D full with
+      | None => [99%N]
+      | Some m => match cache_schema D (size D) [] m with
+                  | (st, Ok r1) => [0%N; if entry_consistent D st (msg_key m) (Linked r1) then 1%N else 0%N]
+                  | (_, other) => [cls other]
+                  end
+      end
+  | OClient full _ _ _ =>
+      match find_msg D full with
+      | None => [99%N]
+      | Some m => match cache_schema D (size D) [] m with
+                  | (st, Ok r) => match client_props_of st r with
+                                  | Ok ps => [0%N; if names_unique_b ps then 0%N else 1%N; if props_resolve D st m ps then 0%N else 1%N]
+                                  | other => [cls other]
+                                  end
+                  | _ => [98%N]
+                  end
+      end
+  | OCodec full _ _ =>
+      match find_msg D full with
+      | None => [99%N]
+      | Some m => match cache_schema D (size D) [] m with
+                  | (st, Ok r) => let '(e, f) := codec_classes D st m r in [e; f]
+                  | _ => [98%N]
+                  end
+      end
+  | OHist l =>
+      (fix go (st : sset) (l : list (str * N)) : list N :=
+         match l with
+         | [] => []
+         | (full, _) :: rest =>
+             match find_msg D full with
+             | None => [99%N]
+             | Some m => let '(st1, o) := cache_schema D (size D) st m in cls o :: go st1 rest
+             end
+         end) [] l
+  end.
+Definition c18_model (c : c18case) : list (list N) :=
+  match c with C18Case D obs => map (obs_model D) obs end.
 
 (* positions of the failing observations of a case (for diagnosis) *)
 Definition c18_failing (c : c18case) : list N :=
